@@ -56,11 +56,19 @@ Class(P) ==
     IF Rows(P) = Cols(P) /\ StructRank(P) = Cols(P) THEN "GenericallyRegular"
     ELSE "MustBeSingular"
 
+(* An exactly zero pivot is certain -- in any elimination order, without    *)
+(* fill-in turning the zero into rounding noise -- when a row or a column  *)
+(* is missing (all zero) or when two equations are exact duplicates; only  *)
+(* then is the EDOM error path demanded of the solves.                     *)
+HasZeroRow(P) == \E i \in 1..Rows(P) : \A j \in 1..Cols(P) : P[i][j] = 0
+HasZeroCol(P) == \E j \in 1..Cols(P) : \A i \in 1..Rows(P) : P[i][j] = 0
+MissingLine(P) == HasZeroRow(P) \/ HasZeroCol(P)
+
 (* row permutation, row scaling (scale classes never create or remove a    *)
 (* zero), transposition                                                    *)
 PermuteRows(P, p) == [i \in 1..Rows(P) |-> P[p[i]]]
 Transpose(P) == [j \in 1..Cols(P) |-> [i \in 1..Rows(P) |-> P[i][j]]]
-ScaleClasses == {-1, 0, 1}      (* 2^-27, 1, 2^27 per row *)
+ScaleClasses == {-1, 0, 1}      (* 2^-28, 1, 2^28 per row *)
 RowScales(n) == [1..n -> ScaleClasses]
 
 -----------------------------------------------------------------------------
